@@ -3,10 +3,16 @@ Model of bam/merger.go: NewMerger, Read, cat, nextBySortOrder, reassignReference
 bySortOrderAndID — as repaired by fixes/C18-1 … C18-5.  Core Lean only.
 
 What is modelled and how
-* A source `bam.Reader` is the list of records it still delivers followed by the way it ends
-  (`Term.eof` or `Term.err e`), repeated for ever (a bgzf.Reader's error is sticky).  A source that fails
-  at record n is `rest = the first n records`, `term = err e`.  `bam.Reader.Read` returns a record or an
-  error, never both and never neither: `ReadRes`.
+* A source `bam.Reader` is the list of records it delivers next (`rest`), followed by the way that run ends
+  (`term`: `Term.eof` or `Term.err e`).  io.EOF is returned for ever.  An error is either sticky (a
+  bgzf.Reader keeps its error: `later = []`, the same error for ever) or NOT sticky (an error of decoding one
+  record — reference id out of range, bad name length, bad aux — consumes the record and the next Read
+  returns the following one: `later = (rest', term') :: …`, the runs that follow).  A source that fails at
+  record n is `rest = the first n records`, `term = err e`.  `bam.Reader.Read` returns a record or an error,
+  never both and never neither: `ReadRes`; `stop` carries the source as it is after the call.
+  The repaired Merger never reads a source again after that source returned an error (fixes/C18-3: dropped
+  from the heap; fixes/C18-6: concatenation releases its sources), which is why only `rest` and `term`
+  of a source appear in the theorems.
 * A record is the fields the merger and its comparison functions look at (`name`, `ref`, `pos`, `mate`,
   `matePos`) plus `uid` standing for everything else.  `ref`/`mate` are indices into the reference list
   of the header the record is linked to (`none` = nil pointer = unplaced / no mate reference).
@@ -44,17 +50,26 @@ deriving DecidableEq, Repr
 structure Src where
   rest : List Rec
   term : Term
+  /-- what the reader delivers after a non-sticky error `term`: the following runs -/
+  later : List (List Rec × Term) := []
 deriving Repr
 
 inductive ReadRes
   | got (r : Rec) (s : Src)
-  | stop (t : Term)
+  | stop (t : Term) (s : Src)
+
+/-- the source after it has returned `term`: unchanged for io.EOF and for a sticky error, the next run
+after a record-level error -/
+def Src.afterStop (s : Src) : Src :=
+  match s.term, s.later with
+  | .err _, (rs, t) :: more => { rest := rs, term := t, later := more }
+  | _, _ => s
 
 /-- `(*bam.Reader).Read` -/
 def Src.read (s : Src) : ReadRes :=
   match s.rest with
   | r :: rs => .got r { s with rest := rs }
-  | [] => .stop s.term
+  | [] => .stop s.term s.afterStop
 
 /-! ### comparison functions -/
 
@@ -131,8 +146,8 @@ structure Heap where
 /-! ### the Merger -/
 
 inductive Mode
-  /-- m.less == nil: m.readers, in order -/
-  | cat (readers : List (Nat × Src))
+  /-- m.less == nil: m.readers, in order, and m.err (set, with m.readers = nil, by the first error) -/
+  | cat (readers : List (Nat × Src)) (err : Option Nat)
   /-- m.less != nil: m.less, the heap m.readers, m.err -/
   | sorted (less : Less) (heap : List Live) (err : Option Nat)
 
@@ -148,6 +163,8 @@ structure Input where
 inductive NewErr
   | noSource
   | sortOrderMismatch
+  /-- sam.MergeHeaders returned an error (e.g. one reference name with two lengths) -/
+  | headerMerge
 deriving DecidableEq, Repr
 
 def enumFrom {α : Type} : Nat → List α → List (Nat × α)
@@ -163,22 +180,26 @@ def initHeads (links : Option LinkFn) : List (Nat × Src) → List Live × Optio
     let (ls, e) := initHeads links rest
     match s.read with
     | .got r s' => ({ id := i, head := relink links i r, src := s' } :: ls, e)
-    | .stop .eof => (ls, e)
-    | .stop (.err x) => (ls, some x)
+    | .stop .eof _ => (ls, e)
+    | .stop (.err x) _ => (ls, some x)
 
-/-- `NewMerger(less, src...)`; `linkFn` is what sam.MergeHeaders returned for the headers (C07) -/
-def newMerger (custom : Option Less) (linkFn : LinkFn) (inputs : List Input) : Except NewErr Merger :=
+/-- `NewMerger(less, src...)`.  `merged` is what sam.MergeHeaders (property C07) answered for the headers:
+`none` = an error, `some linkFn` = the link table.  For a single source MergeHeaders returns the source's
+header and nil links without looking at anything, so `merged` is not consulted. -/
+def newMerger (custom : Option Less) (merged : Option LinkFn) (inputs : List Input) : Except NewErr Merger :=
   match inputs with
   | [] => .error .noSource
   | i0 :: _ =>
     if inputs.all (fun i => i.so == i0.so) then
-      let links := if inputs.length = 1 then none else some linkFn
-      let srcs := enumFrom 0 (inputs.map (·.src))
-      match chooseLess i0.so custom with
-      | none => .ok { links := links, mode := .cat srcs }
-      | some less =>
-        let (heap, err) := initHeads links srcs
-        .ok { links := links, mode := .sorted less heap err }
+      match (if inputs.length = 1 then some none else merged.map some) with
+      | none => .error .headerMerge
+      | some links =>
+        let srcs := enumFrom 0 (inputs.map (·.src))
+        match chooseLess i0.so custom with
+        | none => .ok { links := links, mode := .cat srcs none }
+        | some less =>
+          let (heap, err) := initHeads links srcs
+          .ok { links := links, mode := .sorted less heap err }
     else .error .sortOrderMismatch
 
 /-- what one `Read` returns: a record (with the ghost id of its source) or the final error -/
@@ -186,19 +207,20 @@ inductive Out
   | got (id : Nat) (r : Rec)
   | fin (t : Term)
 
-/-- `cat` (fixes/C18-4): an exhausted source is dropped and the next one is read; any other error is returned
-and the failing source stays in front -/
-def catRead (links : Option LinkFn) : List (Nat × Src) → Out × List (Nat × Src)
-  | [] => (.fin .eof, [])
-  | (id, s) :: rest =>
-    match s.read with
-    | .got r s' => (.got id (relink links id r), (id, s') :: rest)
-    | .stop .eof => catRead links rest
-    | .stop (.err e) => (.fin (.err e), (id, s) :: rest)
-
 def errTerm : Option Nat → Term
   | none => .eof
   | some e => .err e
+
+/-- `Read` with `m.less == nil`: the answer without sources (`m.err` or io.EOF), else `cat` (fixes/C18-4,
+C18-6): an exhausted source is dropped and the next one is read; any other error is kept in `m.err`, the
+sources are released and the error is returned -/
+def catRead (links : Option LinkFn) : List (Nat × Src) → Option Nat → Out × (List (Nat × Src) × Option Nat)
+  | [], err => (.fin (errTerm err), ([], err))
+  | (id, s) :: rest, err =>
+    match s.read with
+    | .got r s' => (.got id (relink links id r), ((id, s') :: rest, err))
+    | .stop .eof _ => catRead links rest err
+    | .stop (.err e) _ => (.fin (.err e), ([], some e))
 
 /-- `Read` with `m.less != nil`: the empty-heap answer, else `nextBySortOrder` -/
 def sortedRead (H : Heap) (links : Option LinkFn) (less : Less) (heap : List Live) (err : Option Nat) :
@@ -208,15 +230,15 @@ def sortedRead (H : Heap) (links : Option LinkFn) (less : Less) (heap : List Liv
   | some (x, rest) =>
     match x.src.read with
     | .got r s' => (.got x.id x.head, ({ x with head := relink links x.id r, src := s' } :: rest, err))
-    | .stop .eof => (.got x.id x.head, (rest, err))
-    | .stop (.err e) => (.got x.id x.head, (rest, match err with | none => some e | some _ => err))
+    | .stop .eof _ => (.got x.id x.head, (rest, err))
+    | .stop (.err e) _ => (.got x.id x.head, (rest, match err with | none => some e | some _ => err))
 
 /-- `(*Merger).Read` -/
 def Merger.read (H : Heap) (m : Merger) : Out × Merger :=
   match m.mode with
-  | .cat rs =>
-    let (o, rs') := catRead m.links rs
-    (o, { m with mode := .cat rs' })
+  | .cat rs err =>
+    let (o, st) := catRead m.links rs err
+    (o, { m with mode := .cat st.1 st.2 })
   | .sorted less heap err =>
     let (o, st) := sortedRead H m.links less heap err
     (o, { m with mode := .sorted less st.1 st.2 })
@@ -234,7 +256,7 @@ def drain (H : Heap) : Nat → Merger → List (Nat × Rec) × Option Term
 /-- number of records the merger can still return -/
 def Merger.size (m : Merger) : Nat :=
   match m.mode with
-  | .cat rs => (rs.map fun p => p.2.rest.length).sum
+  | .cat rs _ => (rs.map fun p => p.2.rest.length).sum
   | .sorted _ heap _ => (heap.map fun x => 1 + x.src.rest.length).sum
 
 /-- read the merger to its end (`size + 1` calls suffice: Hts.Props.C18.merge_terminates) -/
